@@ -33,6 +33,7 @@ def main():
     ap.add_argument('--name', default=None)
     ap.add_argument('--src', default=None, help='directory with patch.diff, demo.py, meta.json (default /tmp/seedwork/out/<id>)')
     ap.add_argument('--seed', default='1')
+    ap.add_argument('--scratch', action='store_true', help='run the checks against a scratch copy (PFSTVERIF_SRC) instead of patching /repo')
     ap.add_argument('--orig-wt', default=None, help='worktree path the demo may mention (default /tmp/seedwork/<id>)')
     args = ap.parse_args()
 
@@ -90,7 +91,26 @@ def main():
     if os.path.exists(f'{src}/meta.json'):
         shutil.copy(f'{src}/meta.json', f'{dest}/meta.json')
 
-    if confirmed:
+    if confirmed and args.scratch:
+        # checks against a scratch copy of /repo/src with the patch applied (PFSTVERIF_SRC): /repo itself is not touched
+        mut = f'/tmp/mutsrc_{name}'
+        shutil.rmtree(mut, ignore_errors=True)
+        os.makedirs(mut)
+        shutil.copytree('/repo/src', f'{mut}/src')
+        rp = sh(f'patch -s -p1 < {dest}/patch.diff', cwd=mut)
+        assert rp.returncode == 0, rp.stdout + rp.stderr
+
+        try:
+            for c in checks:
+                t0 = time.time()
+                r = sh(f'./check {c} --tier {args.tier} --seed {args.seed}', cwd='/verif', env=dict(os.environ, PFSTVERIF_SRC=f'{mut}/src'))
+                viol = [l for l in r.stdout.splitlines() if l.startswith('VIOLATION')]
+                heads = [l[:260] for l in r.stdout.splitlines() if l.startswith('[' + c)]
+                out['checks'][c] = {'rc': r.returncode, 'violations': len(viol), 'first': heads[:3], 'wall_s': round(time.time() - t0, 1), 'tier': args.tier, 'seed': args.seed}
+        finally:
+            shutil.rmtree(mut, ignore_errors=True)
+
+    elif confirmed:
         st = sh('git -C /repo status --porcelain').stdout.strip()
         assert not st, f'/repo not clean: {st}'
         ra = sh(f'git -C /repo apply {dest}/patch.diff')
